@@ -66,7 +66,7 @@ def run(ck: Check):
                 l.train()
                 with torch.no_grad():
                     y32 = l(x)
-                if float(y32.min()) < -1e-6 or float(y32.max()) > 1 + 1e-6:
+                if not (float(y32.min()) >= -1e-6 and float(y32.max()) <= 1 + 1e-6):      # NaN is outside too
                     ck.disagree("soft training activation outside [0,1]", case, observed=[float(y32.min()), float(y32.max())],
                                 signature={"layer": "dense", "param": par, "what": "range"})
                 # a 0/1 batch stored in an integer or half dtype is the same batch (an exception is not a wrong value)
@@ -81,7 +81,7 @@ def run(ck: Check):
                         ck.count("dtype_variant_rejected")
                         continue
                     ck.count("dtype_variant_checks")
-                    if float((yv.double() - yref.double()).abs().max()) > 1e-3:
+                    if not (float((yv.double() - yref.double()).abs().max()) <= 1e-3):
                         ck.disagree("soft training output on a 0/1 batch depends on the dtype the batch is stored in",
                                     dict(case, dtype=str(dt)), expected=yref[0].tolist(), observed=yv[0].tolist(),
                                     signature={"layer": "dense", "param": par, "what": "dtype"})
@@ -154,7 +154,7 @@ def run(ck: Check):
         l.train()
         with torch.no_grad():
             y32 = l(x)
-        if float(y32.min()) < -1e-6 or float(y32.max()) > 1 + 1e-6:
+        if not (float(y32.min()) >= -1e-6 and float(y32.max()) <= 1 + 1e-6):      # NaN is outside too
             ck.disagree("soft training activation outside [0,1]", case, signature={"layer": f"conv{dims}d", "param": par, "what": "range"})
         ld = l.double()
         with torch.no_grad():
